@@ -51,6 +51,12 @@ OpRet(id, res) ==
   /\ pendOps' = Without(pendOps, id)
   /\ UNCHANGED <<smap, conns, handlers, stopping, gone>>
 
+\* a completed or pending READ-ONLY operation may be withdrawn from the history (it has no effect on the map)
+OpCancel(id) ==
+  /\ id \in DOMAIN pendOps /\ pendOps[id].op = "getAll"
+  /\ pendOps' = Without(pendOps, id)
+  /\ UNCHANGED <<smap, conns, handlers, stopping, gone>>
+
 \* ---- connections: handler threads are accounted (thread_count_), whatever the client does
 HStart == handlers' = handlers + 1 /\ ~gone /\ UNCHANGED <<smap, pendOps, conns, stopping, gone>>
 HEnd == handlers > 0 /\ handlers' = handlers - 1 /\ UNCHANGED <<smap, pendOps, conns, stopping, gone>>
